@@ -22,7 +22,10 @@ package types
 //@ keyfns GroupStoreKey DKGContextStoreKey MemberStoreKey Round1InfoCountStoreKey Round1InfoStoreKey
 //@   AccumulatedCommitStoreKey Round2InfoStoreKey Round2InfoCountStoreKey ConfirmStoreKey
 //@   ComplainsWithStatusStoreKey ConfirmComplainCountStoreKey DEStoreKey DEQueueStoreKey SigningStoreKey
-//@   PartialSignatureCountStoreKey PartialSignatureStoreKey SigningAttemptStoreKey MembersStoreKey
+//@   PartialSignatureCountStoreKey PartialSignatureStoreKey SigningAttemptStoreKey MembersStoreKey ConfirmsStoreKey
+// layout fact (trusted, key-layout): ConfirmStoreKey(g, m) = ConfirmsStoreKey(g) || be64(m), and nothing else is stored
+// under that prefix - a key below a group's confirm prefix is a confirm record of that group
+//@ axiom confirmPrefix: forall q Bz, g Int :: hasprefix(q, ConfirmsStoreKey(g)) ==> iskey(ConfirmStoreKey, q) && keyarg(ConfirmStoreKey, q, 0) == g
 
 //@ func (k RollingseedKeeper) GetRollingSeed
 //@ trusted
